@@ -49,7 +49,8 @@ TRANSCRIBED = {
     ("tensordict/_lazy.py", "LazyStackedTensorDict._repeat"): "C08Resize: lazyRepeat",
     ("tensordict/_lazy.py", "LazyStackedTensorDict.expand"): "C08Resize: lazyExpand",
     ("tensordict/base.py", "TensorDictBase.repeat"): "C08Resize: lazyRepeat (argument checks)",
-    ("tensordict/_torch_func.py", "_lazy_cat"): "C08Lazy: lazyCat",
+    ("tensordict/_lazy.py", "LazyStackedTensorDict._stack_onto_"): "C08Out: lazyStackOnto",
+    ("tensordict/_torch_func.py", "_lazy_cat"): "C08Lazy: lazyCat; C08Out: lazyCatOut",
     ("tensordict/_torch_func.py", "_stack"): "C08Lazy: lazyStackOp (the branch over lazy operands)",
     ("tensordict/utils.py", "convert_ellipsis_to_idx"): "C08Index: convertEllipsis",
     ("tensordict/utils.py", "_getitem_batch_size"): "C08Lazy: getitemBatchSize",
